@@ -40,3 +40,22 @@ add("C19", "model_checking",
     "Two 2x2 integer arrays (exact sums); histories longer than the depth bound are not explored; "
     "type/process/signal membership tables are the library's published constants.",
     "DESIGN.md §3 C19")
+add("C04", "model_checking",
+    "explicit-state breadth-first search over context/object operation histories on the real "
+    "Manager and real managed objects, with exception injection and an independent basis model",
+    "BFS (one section per managed class: Operator, ReducedDensityMatrix, Hamiltonian, "
+    "TransitionDipoleMoment, SuperOperator, LindbladForm in operator and tensor form, "
+    "DensityMatrixEvolution; plus mixed sections) over enter(X)/exit/exit-by-exception/"
+    "exception-through-all-levels/create/read/write/failing-write/protect/unprotect/apply, nesting "
+    "<=2 (quick) / <=3 (thorough), 2-3 context operators incl. a degenerate one, <=1/<=2 injected "
+    "exceptions. Every read is compared with S^-1 H S from a reference model that tracks each "
+    "object's physical operator in the root basis; each transformation matrix handed out by the "
+    "implementation is validated (orthogonal, diagonalising, ascending) before the model uses it; "
+    "after every exit the bookkeeping is compared with the snapshot taken before the matching "
+    "enter; every history is finally closed and stack/transformations/registrations/flag/tags and "
+    "every object's stored array are compared with the original representation.",
+    "3x3 real symmetric context operators; protection only in the bracketed form (protect, "
+    "contexts, unprotect at the same depth; a protected operator's own context is entered only at "
+    "the depth where it was protected); StateVector objects are not in the alphabet; histories "
+    "beyond the completed depth are not explored (depth and caps reported in the evidence).",
+    "DESIGN.md §3 C04")
